@@ -197,11 +197,16 @@ class StaticFileHandler(RequestHandler):
             True if the path is safe, False otherwise.
         """
         try:
+            # Path.resolve() gives up at a symbolic-link loop and returns the rest of
+            # the path unresolved ("loop/../link" comes back as "link"): a path is
+            # only trusted if resolving it once more leaves it unchanged
+            if file_path.resolve() != file_path:
+                return False
             # Check if the resolved path is relative to document_root
             file_path.relative_to(self.document_root)
             return True
-        except ValueError:
-            # Path is not within document_root
+        except (ValueError, OSError, RuntimeError):
+            # Path is not within document_root (or cannot be resolved at all)
             return False
 
     def _get_mime_type(self, file_path: Path) -> str:
